@@ -126,7 +126,8 @@ func strs(vs ...string) []any {
 	return out
 }
 
-var durVals = strs("", "0", "0s", "-1m", "1ns", "30s", "1m", "10m", "xyz", "5", "1h30m")
+// canonical spellings come first, then case / whitespace variants that time.ParseDuration rejects
+var durVals = strs("", "0", "0s", "-1m", "1ns", "30s", "1m", "10m", "xyz", "5", "1h30m", "1M", "10M", " 1m", "1m ", "30S", "1H30M")
 
 func validationGrids() []fieldGrid {
 	th := ints(-1, 0, 1, 10, 40, 70, 100, 150)
@@ -364,6 +365,12 @@ type groupSrc map[string]any // key -> value, "aws" -> map[string]any
 
 func renderYAML(groups []groupSrc, style int, pad int) string {
 	var b strings.Builder
+	if pad > 8192 { // a long leading comment pushes the groups far into the stream
+		for b.Len() < pad {
+			b.WriteString("# " + strings.Repeat("padding ", 9) + "\n")
+		}
+		pad = 0
+	}
 	b.WriteString("node_groups:\n")
 	for _, g := range groups {
 		keys := sortedKeys(g)
@@ -505,7 +512,7 @@ func TestC16Decode(t *testing.T) {
 			}
 			groups = append(groups, src)
 		}
-		pad := rapid.SampledFrom([]int{0, 0, 4000, 4096, 5000}).Draw(rt, "pad")
+		pad := rapid.SampledFrom([]int{0, 0, 4000, 4096, 5000, 66000, 140000}).Draw(rt, "pad")
 		style := rapid.IntRange(0, 1).Draw(rt, "yamlStyle")
 		y := renderYAML(groups, style, pad)
 		js := renderJSON(groups, rapid.Bool().Draw(rt, "indent"), pad)
